@@ -2,8 +2,8 @@
 //
 // Decomposition (see DESIGN.md "C11"):
 //  (A) calamine's arithmetic. `ExcelDateTime::as_datetime` hands chrono exactly one number: the millisecond offset
-//      `ms` from 1899-12-30T00:00 (`Duration::milliseconds(ms)`); `as_duration` likewise. Harnesses marked
-//      `#[kani::stub(chrono::TimeDelta::milliseconds, rec_milliseconds)]` run the REAL calamine function and observe that number.
+//      `ms` from 1899-12-30T00:00 (`Duration::milliseconds(ms)`, i.e. `expect(try_milliseconds(ms))`); `as_duration` likewise. Harnesses marked
+//      `#[kani::stub(chrono::TimeDelta::try_milliseconds, rec_try_milliseconds)]` run the REAL calamine function and observe that number.
 //      Specifications are integer/rational statements derived from the property text:
 //        1900 system: day offset = serial (+1 below serial 60: serial 1 = 1900-01-01 = epoch + 2 days),
 //        1904 system: day offset = serial + 1462 (serial 0 = 1904-01-01),
@@ -23,13 +23,15 @@ const LAST_SERIAL: f64 = 2958466.0; // first serial after 9999-12-31 (supported 
 static mut REC_MS: i64 = 0;
 static mut REC_CALLS: u32 = 0;
 
-/// recording stub for `chrono::TimeDelta::milliseconds`
-fn rec_milliseconds(ms: i64) -> TimeDelta {
+/// recording stub for `chrono::TimeDelta::try_milliseconds` (the real `TimeDelta::milliseconds` is `expect(try_milliseconds(ms))`, so
+/// this observes the argument whether the code under test calls `milliseconds` or `try_milliseconds`). It does not model chrono's
+/// range check (None below -i64::MAX): totality / None paths are the business of the unstubbed harnesses in (A4).
+fn rec_try_milliseconds(ms: i64) -> Option<TimeDelta> {
     unsafe {
         REC_MS = ms;
         REC_CALLS += 1;
     }
-    TimeDelta::zero()
+    Some(TimeDelta::zero())
 }
 
 /// the millisecond offset the real `as_datetime` passes to chrono
@@ -564,362 +566,362 @@ fn civil_range(lo: u32, hi: u32) {
 
 // ===================== harness instantiations (one #[kani::proof] per registered obligation) =====================
 #[kani::proof]
-#[kani::stub(chrono::TimeDelta::milliseconds, rec_milliseconds)]
+#[kani::stub(chrono::TimeDelta::try_milliseconds, rec_try_milliseconds)]
 fn days1900_all() {
     days_sym_1900(0, 21);
 }
 #[kani::proof]
-#[kani::stub(chrono::TimeDelta::milliseconds, rec_milliseconds)]
+#[kani::stub(chrono::TimeDelta::try_milliseconds, rec_try_milliseconds)]
 fn days1904_all() {
     days_sym_1904(0, 21);
 }
 #[kani::proof]
-#[kani::stub(chrono::TimeDelta::milliseconds, rec_milliseconds)]
+#[kani::stub(chrono::TimeDelta::try_milliseconds, rec_try_milliseconds)]
 fn days_serial_zero() {
     days_zero();
 }
 #[kani::proof]
-#[kani::stub(chrono::TimeDelta::milliseconds, rec_milliseconds)]
+#[kani::stub(chrono::TimeDelta::try_milliseconds, rec_try_milliseconds)]
 fn days1900_cast_e0() {
     whole_days_1900(0, 1);
 }
 #[kani::proof]
-#[kani::stub(chrono::TimeDelta::milliseconds, rec_milliseconds)]
+#[kani::stub(chrono::TimeDelta::try_milliseconds, rec_try_milliseconds)]
 fn days1900_cast_e1() {
     whole_days_1900(2, 3);
 }
 #[kani::proof]
-#[kani::stub(chrono::TimeDelta::milliseconds, rec_milliseconds)]
+#[kani::stub(chrono::TimeDelta::try_milliseconds, rec_try_milliseconds)]
 fn days1900_cast_e2() {
     whole_days_1900(4, 7);
 }
 #[kani::proof]
-#[kani::stub(chrono::TimeDelta::milliseconds, rec_milliseconds)]
+#[kani::stub(chrono::TimeDelta::try_milliseconds, rec_try_milliseconds)]
 fn days1900_cast_e3() {
     whole_days_1900(8, 15);
 }
 #[kani::proof]
-#[kani::stub(chrono::TimeDelta::milliseconds, rec_milliseconds)]
+#[kani::stub(chrono::TimeDelta::try_milliseconds, rec_try_milliseconds)]
 fn days1900_cast_e4() {
     whole_days_1900(16, 31);
 }
 #[kani::proof]
-#[kani::stub(chrono::TimeDelta::milliseconds, rec_milliseconds)]
+#[kani::stub(chrono::TimeDelta::try_milliseconds, rec_try_milliseconds)]
 fn days1900_cast_e5() {
     whole_days_1900(32, 63);
 }
 #[kani::proof]
-#[kani::stub(chrono::TimeDelta::milliseconds, rec_milliseconds)]
+#[kani::stub(chrono::TimeDelta::try_milliseconds, rec_try_milliseconds)]
 fn days1900_cast_e6() {
     whole_days_1900(64, 127);
 }
 #[kani::proof]
-#[kani::stub(chrono::TimeDelta::milliseconds, rec_milliseconds)]
+#[kani::stub(chrono::TimeDelta::try_milliseconds, rec_try_milliseconds)]
 fn days1900_cast_e7() {
     whole_days_1900(128, 255);
 }
 #[kani::proof]
-#[kani::stub(chrono::TimeDelta::milliseconds, rec_milliseconds)]
+#[kani::stub(chrono::TimeDelta::try_milliseconds, rec_try_milliseconds)]
 fn days1900_cast_e8() {
     whole_days_1900(256, 511);
 }
 #[kani::proof]
-#[kani::stub(chrono::TimeDelta::milliseconds, rec_milliseconds)]
+#[kani::stub(chrono::TimeDelta::try_milliseconds, rec_try_milliseconds)]
 fn days1900_cast_e9() {
     whole_days_1900(512, 1023);
 }
 #[kani::proof]
-#[kani::stub(chrono::TimeDelta::milliseconds, rec_milliseconds)]
+#[kani::stub(chrono::TimeDelta::try_milliseconds, rec_try_milliseconds)]
 fn days1900_cast_e10() {
     whole_days_1900(1024, 2047);
 }
 #[kani::proof]
-#[kani::stub(chrono::TimeDelta::milliseconds, rec_milliseconds)]
+#[kani::stub(chrono::TimeDelta::try_milliseconds, rec_try_milliseconds)]
 fn days1900_cast_e11() {
     whole_days_1900(2048, 4095);
 }
 #[kani::proof]
-#[kani::stub(chrono::TimeDelta::milliseconds, rec_milliseconds)]
+#[kani::stub(chrono::TimeDelta::try_milliseconds, rec_try_milliseconds)]
 fn days1900_cast_e12() {
     whole_days_1900(4096, 8191);
 }
 #[kani::proof]
-#[kani::stub(chrono::TimeDelta::milliseconds, rec_milliseconds)]
+#[kani::stub(chrono::TimeDelta::try_milliseconds, rec_try_milliseconds)]
 fn days1900_cast_e13() {
     whole_days_1900(8192, 16383);
 }
 #[kani::proof]
-#[kani::stub(chrono::TimeDelta::milliseconds, rec_milliseconds)]
+#[kani::stub(chrono::TimeDelta::try_milliseconds, rec_try_milliseconds)]
 fn days1900_cast_e14() {
     whole_days_1900(16384, 32767);
 }
 #[kani::proof]
-#[kani::stub(chrono::TimeDelta::milliseconds, rec_milliseconds)]
+#[kani::stub(chrono::TimeDelta::try_milliseconds, rec_try_milliseconds)]
 fn days1900_cast_e15() {
     whole_days_1900(32768, 65535);
 }
 #[kani::proof]
-#[kani::stub(chrono::TimeDelta::milliseconds, rec_milliseconds)]
+#[kani::stub(chrono::TimeDelta::try_milliseconds, rec_try_milliseconds)]
 fn days1900_cast_e16() {
     whole_days_1900(65536, 131071);
 }
 #[kani::proof]
-#[kani::stub(chrono::TimeDelta::milliseconds, rec_milliseconds)]
+#[kani::stub(chrono::TimeDelta::try_milliseconds, rec_try_milliseconds)]
 fn days1900_cast_e17() {
     whole_days_1900(131072, 262143);
 }
 #[kani::proof]
-#[kani::stub(chrono::TimeDelta::milliseconds, rec_milliseconds)]
+#[kani::stub(chrono::TimeDelta::try_milliseconds, rec_try_milliseconds)]
 fn days1900_cast_e18() {
     whole_days_1900(262144, 524287);
 }
 #[kani::proof]
-#[kani::stub(chrono::TimeDelta::milliseconds, rec_milliseconds)]
+#[kani::stub(chrono::TimeDelta::try_milliseconds, rec_try_milliseconds)]
 fn days1900_cast_e19() {
     whole_days_1900(524288, 1048575);
 }
 #[kani::proof]
-#[kani::stub(chrono::TimeDelta::milliseconds, rec_milliseconds)]
+#[kani::stub(chrono::TimeDelta::try_milliseconds, rec_try_milliseconds)]
 fn days1900_cast_e20() {
     whole_days_1900(1048576, 2097151);
 }
 #[kani::proof]
-#[kani::stub(chrono::TimeDelta::milliseconds, rec_milliseconds)]
+#[kani::stub(chrono::TimeDelta::try_milliseconds, rec_try_milliseconds)]
 fn days1900_cast_e21() {
     whole_days_1900(2097152, 2958465);
 }
 #[kani::proof]
-#[kani::stub(chrono::TimeDelta::milliseconds, rec_milliseconds)]
+#[kani::stub(chrono::TimeDelta::try_milliseconds, rec_try_milliseconds)]
 fn days1904_cast_e0() {
     whole_days_1904(0, 1);
 }
 #[kani::proof]
-#[kani::stub(chrono::TimeDelta::milliseconds, rec_milliseconds)]
+#[kani::stub(chrono::TimeDelta::try_milliseconds, rec_try_milliseconds)]
 fn days1904_cast_e1() {
     whole_days_1904(2, 3);
 }
 #[kani::proof]
-#[kani::stub(chrono::TimeDelta::milliseconds, rec_milliseconds)]
+#[kani::stub(chrono::TimeDelta::try_milliseconds, rec_try_milliseconds)]
 fn days1904_cast_e2() {
     whole_days_1904(4, 7);
 }
 #[kani::proof]
-#[kani::stub(chrono::TimeDelta::milliseconds, rec_milliseconds)]
+#[kani::stub(chrono::TimeDelta::try_milliseconds, rec_try_milliseconds)]
 fn days1904_cast_e3() {
     whole_days_1904(8, 15);
 }
 #[kani::proof]
-#[kani::stub(chrono::TimeDelta::milliseconds, rec_milliseconds)]
+#[kani::stub(chrono::TimeDelta::try_milliseconds, rec_try_milliseconds)]
 fn days1904_cast_e4() {
     whole_days_1904(16, 31);
 }
 #[kani::proof]
-#[kani::stub(chrono::TimeDelta::milliseconds, rec_milliseconds)]
+#[kani::stub(chrono::TimeDelta::try_milliseconds, rec_try_milliseconds)]
 fn days1904_cast_e5() {
     whole_days_1904(32, 63);
 }
 #[kani::proof]
-#[kani::stub(chrono::TimeDelta::milliseconds, rec_milliseconds)]
+#[kani::stub(chrono::TimeDelta::try_milliseconds, rec_try_milliseconds)]
 fn days1904_cast_e6() {
     whole_days_1904(64, 127);
 }
 #[kani::proof]
-#[kani::stub(chrono::TimeDelta::milliseconds, rec_milliseconds)]
+#[kani::stub(chrono::TimeDelta::try_milliseconds, rec_try_milliseconds)]
 fn days1904_cast_e7() {
     whole_days_1904(128, 255);
 }
 #[kani::proof]
-#[kani::stub(chrono::TimeDelta::milliseconds, rec_milliseconds)]
+#[kani::stub(chrono::TimeDelta::try_milliseconds, rec_try_milliseconds)]
 fn days1904_cast_e8() {
     whole_days_1904(256, 511);
 }
 #[kani::proof]
-#[kani::stub(chrono::TimeDelta::milliseconds, rec_milliseconds)]
+#[kani::stub(chrono::TimeDelta::try_milliseconds, rec_try_milliseconds)]
 fn days1904_cast_e9() {
     whole_days_1904(512, 1023);
 }
 #[kani::proof]
-#[kani::stub(chrono::TimeDelta::milliseconds, rec_milliseconds)]
+#[kani::stub(chrono::TimeDelta::try_milliseconds, rec_try_milliseconds)]
 fn days1904_cast_e10() {
     whole_days_1904(1024, 2047);
 }
 #[kani::proof]
-#[kani::stub(chrono::TimeDelta::milliseconds, rec_milliseconds)]
+#[kani::stub(chrono::TimeDelta::try_milliseconds, rec_try_milliseconds)]
 fn days1904_cast_e11() {
     whole_days_1904(2048, 4095);
 }
 #[kani::proof]
-#[kani::stub(chrono::TimeDelta::milliseconds, rec_milliseconds)]
+#[kani::stub(chrono::TimeDelta::try_milliseconds, rec_try_milliseconds)]
 fn days1904_cast_e12() {
     whole_days_1904(4096, 8191);
 }
 #[kani::proof]
-#[kani::stub(chrono::TimeDelta::milliseconds, rec_milliseconds)]
+#[kani::stub(chrono::TimeDelta::try_milliseconds, rec_try_milliseconds)]
 fn days1904_cast_e13() {
     whole_days_1904(8192, 16383);
 }
 #[kani::proof]
-#[kani::stub(chrono::TimeDelta::milliseconds, rec_milliseconds)]
+#[kani::stub(chrono::TimeDelta::try_milliseconds, rec_try_milliseconds)]
 fn days1904_cast_e14() {
     whole_days_1904(16384, 32767);
 }
 #[kani::proof]
-#[kani::stub(chrono::TimeDelta::milliseconds, rec_milliseconds)]
+#[kani::stub(chrono::TimeDelta::try_milliseconds, rec_try_milliseconds)]
 fn days1904_cast_e15() {
     whole_days_1904(32768, 65535);
 }
 #[kani::proof]
-#[kani::stub(chrono::TimeDelta::milliseconds, rec_milliseconds)]
+#[kani::stub(chrono::TimeDelta::try_milliseconds, rec_try_milliseconds)]
 fn days1904_cast_e16() {
     whole_days_1904(65536, 131071);
 }
 #[kani::proof]
-#[kani::stub(chrono::TimeDelta::milliseconds, rec_milliseconds)]
+#[kani::stub(chrono::TimeDelta::try_milliseconds, rec_try_milliseconds)]
 fn days1904_cast_e17() {
     whole_days_1904(131072, 262143);
 }
 #[kani::proof]
-#[kani::stub(chrono::TimeDelta::milliseconds, rec_milliseconds)]
+#[kani::stub(chrono::TimeDelta::try_milliseconds, rec_try_milliseconds)]
 fn days1904_cast_e18() {
     whole_days_1904(262144, 524287);
 }
 #[kani::proof]
-#[kani::stub(chrono::TimeDelta::milliseconds, rec_milliseconds)]
+#[kani::stub(chrono::TimeDelta::try_milliseconds, rec_try_milliseconds)]
 fn days1904_cast_e19() {
     whole_days_1904(524288, 1048575);
 }
 #[kani::proof]
-#[kani::stub(chrono::TimeDelta::milliseconds, rec_milliseconds)]
+#[kani::stub(chrono::TimeDelta::try_milliseconds, rec_try_milliseconds)]
 fn days1904_cast_e20() {
     whole_days_1904(1048576, 2097151);
 }
 #[kani::proof]
-#[kani::stub(chrono::TimeDelta::milliseconds, rec_milliseconds)]
+#[kani::stub(chrono::TimeDelta::try_milliseconds, rec_try_milliseconds)]
 fn days1904_cast_e21() {
     whole_days_1904(2097152, 2958465);
 }
 #[kani::proof]
-#[kani::stub(chrono::TimeDelta::milliseconds, rec_milliseconds)]
+#[kani::stub(chrono::TimeDelta::try_milliseconds, rec_try_milliseconds)]
 fn tol1900_em28_em1() {
     tol_sym(-28, -1, false);
 }
 #[kani::proof]
-#[kani::stub(chrono::TimeDelta::milliseconds, rec_milliseconds)]
+#[kani::stub(chrono::TimeDelta::try_milliseconds, rec_try_milliseconds)]
 fn tol1900_e0_e5() {
     tol_sym(0, 5, false);
 }
 #[kani::proof]
-#[kani::stub(chrono::TimeDelta::milliseconds, rec_milliseconds)]
+#[kani::stub(chrono::TimeDelta::try_milliseconds, rec_try_milliseconds)]
 fn tol1900_e6_e21() {
     tol_sym(6, 21, false);
 }
 #[kani::proof]
-#[kani::stub(chrono::TimeDelta::milliseconds, rec_milliseconds)]
+#[kani::stub(chrono::TimeDelta::try_milliseconds, rec_try_milliseconds)]
 fn tol1904_em28_e9() {
     tol_sym(-28, 9, true);
 }
 #[kani::proof]
-#[kani::stub(chrono::TimeDelta::milliseconds, rec_milliseconds)]
+#[kani::stub(chrono::TimeDelta::try_milliseconds, rec_try_milliseconds)]
 fn tol1904_e10_e21() {
     tol_sym(10, 21, true);
 }
 #[kani::proof]
-#[kani::stub(chrono::TimeDelta::milliseconds, rec_milliseconds)]
+#[kani::stub(chrono::TimeDelta::try_milliseconds, rec_try_milliseconds)]
 fn tol_tiny() {
     tiny_serial();
 }
 #[kani::proof]
-#[kani::stub(chrono::TimeDelta::milliseconds, rec_milliseconds)]
+#[kani::stub(chrono::TimeDelta::try_milliseconds, rec_try_milliseconds)]
 fn sys1904_is_1900_plus_1462() {
     sys1904_link();
 }
 #[kani::proof]
-#[kani::stub(chrono::TimeDelta::milliseconds, rec_milliseconds)]
+#[kani::stub(chrono::TimeDelta::try_milliseconds, rec_try_milliseconds)]
 fn datetime_offset_is_duration_of_shimmed_serial() {
     shim_link();
 }
 #[kani::proof]
-#[kani::stub(chrono::TimeDelta::milliseconds, rec_milliseconds)]
+#[kani::stub(chrono::TimeDelta::try_milliseconds, rec_try_milliseconds)]
 fn exact_hi_all() {
     exact_hi(6, 21);
 }
 #[kani::proof]
-#[kani::stub(chrono::TimeDelta::milliseconds, rec_milliseconds)]
+#[kani::stub(chrono::TimeDelta::try_milliseconds, rec_try_milliseconds)]
 fn exact_lo_q20() {
     exact_lo(1 << 20, (1 << 21) - 1);
 }
 #[kani::proof]
-#[kani::stub(chrono::TimeDelta::milliseconds, rec_milliseconds)]
+#[kani::stub(chrono::TimeDelta::try_milliseconds, rec_try_milliseconds)]
 fn exact_lo_q21() {
     exact_lo(1 << 21, (1 << 22) - 1);
 }
 #[kani::proof]
-#[kani::stub(chrono::TimeDelta::milliseconds, rec_milliseconds)]
+#[kani::stub(chrono::TimeDelta::try_milliseconds, rec_try_milliseconds)]
 fn exact_lo_q22() {
     exact_lo(1 << 22, (1 << 23) - 1);
 }
 #[kani::proof]
-#[kani::stub(chrono::TimeDelta::milliseconds, rec_milliseconds)]
+#[kani::stub(chrono::TimeDelta::try_milliseconds, rec_try_milliseconds)]
 fn exact_lo_q23() {
     exact_lo(1 << 23, (1 << 24) - 1);
 }
 #[kani::proof]
-#[kani::stub(chrono::TimeDelta::milliseconds, rec_milliseconds)]
+#[kani::stub(chrono::TimeDelta::try_milliseconds, rec_try_milliseconds)]
 fn exact_lo_q24() {
     exact_lo(1 << 24, (1 << 25) - 1);
 }
 #[kani::proof]
-#[kani::stub(chrono::TimeDelta::milliseconds, rec_milliseconds)]
+#[kani::stub(chrono::TimeDelta::try_milliseconds, rec_try_milliseconds)]
 fn exact_lo_q25() {
     exact_lo(1 << 25, (1 << 26) - 1);
 }
 #[kani::proof]
-#[kani::stub(chrono::TimeDelta::milliseconds, rec_milliseconds)]
+#[kani::stub(chrono::TimeDelta::try_milliseconds, rec_try_milliseconds)]
 fn exact_lo_q26() {
     exact_lo(1 << 26, (1 << 27) - 1);
 }
 #[kani::proof]
-#[kani::stub(chrono::TimeDelta::milliseconds, rec_milliseconds)]
+#[kani::stub(chrono::TimeDelta::try_milliseconds, rec_try_milliseconds)]
 fn exact_lo_q27() {
     exact_lo(1 << 27, (1 << 28) - 1);
 }
 #[kani::proof]
-#[kani::stub(chrono::TimeDelta::milliseconds, rec_milliseconds)]
+#[kani::stub(chrono::TimeDelta::try_milliseconds, rec_try_milliseconds)]
 fn exact_lo_q28() {
     exact_lo(1 << 28, (1 << 29) - 1);
 }
 #[kani::proof]
-#[kani::stub(chrono::TimeDelta::milliseconds, rec_milliseconds)]
+#[kani::stub(chrono::TimeDelta::try_milliseconds, rec_try_milliseconds)]
 fn exact_lo_q29() {
     exact_lo(1 << 29, (1 << 30) - 1);
 }
 #[kani::proof]
-#[kani::stub(chrono::TimeDelta::milliseconds, rec_milliseconds)]
+#[kani::stub(chrono::TimeDelta::try_milliseconds, rec_try_milliseconds)]
 fn exact_lo_q30() {
     exact_lo(1 << 30, (1 << 31) - 1);
 }
 #[kani::proof]
-#[kani::stub(chrono::TimeDelta::milliseconds, rec_milliseconds)]
+#[kani::stub(chrono::TimeDelta::try_milliseconds, rec_try_milliseconds)]
 fn exact_lo_q31() {
     exact_lo(1 << 31, (1 << 32) - 1);
 }
 #[kani::proof]
-#[kani::stub(chrono::TimeDelta::milliseconds, rec_milliseconds)]
+#[kani::stub(chrono::TimeDelta::try_milliseconds, rec_try_milliseconds)]
 fn exact_lo_q32() {
     exact_lo(1 << 32, (1 << 33) - 1);
 }
 #[kani::proof]
-#[kani::stub(chrono::TimeDelta::milliseconds, rec_milliseconds)]
+#[kani::stub(chrono::TimeDelta::try_milliseconds, rec_try_milliseconds)]
 fn exact_lo_q33() {
     exact_lo(1 << 33, (1 << 34) - 1);
 }
 #[kani::proof]
-#[kani::stub(chrono::TimeDelta::milliseconds, rec_milliseconds)]
+#[kani::stub(chrono::TimeDelta::try_milliseconds, rec_try_milliseconds)]
 fn exact_lo_q34() {
     exact_lo(1 << 34, (1 << 35) - 1);
 }
 #[kani::proof]
-#[kani::stub(chrono::TimeDelta::milliseconds, rec_milliseconds)]
+#[kani::stub(chrono::TimeDelta::try_milliseconds, rec_try_milliseconds)]
 fn exact_lo_q35() {
     exact_lo(1 << 35, (1 << 36) - 1);
 }
@@ -952,72 +954,72 @@ fn as_duration_some_above_min() {
     total_duration(true);
 }
 #[kani::proof]
-#[kani::stub(chrono::TimeDelta::milliseconds, rec_milliseconds)]
+#[kani::stub(chrono::TimeDelta::try_milliseconds, rec_try_milliseconds)]
 fn monotone_quarter_grid_0_100() {
     mono_grid(4, 0, 400, false);
 }
 #[kani::proof]
-#[kani::stub(chrono::TimeDelta::milliseconds, rec_milliseconds)]
+#[kani::stub(chrono::TimeDelta::try_milliseconds, rec_try_milliseconds)]
 fn monotone_outside_59_61_quarter_grid_0_100() {
     mono_grid(4, 0, 400, true);
 }
 #[kani::proof]
-#[kani::stub(chrono::TimeDelta::milliseconds, rec_milliseconds)]
+#[kani::stub(chrono::TimeDelta::try_milliseconds, rec_try_milliseconds)]
 fn monotone_outside_59_61_1024_grid_0_128() {
     mono_grid(1024, 0, 128 * 1024 - 1, true);
 }
 #[kani::proof]
-#[kani::stub(chrono::TimeDelta::milliseconds, rec_milliseconds)]
+#[kani::stub(chrono::TimeDelta::try_milliseconds, rec_try_milliseconds)]
 fn monotone_quarter_grid_e9() {
     mono_grid(4, 512, 1023, true);
 }
 #[kani::proof]
-#[kani::stub(chrono::TimeDelta::milliseconds, rec_milliseconds)]
+#[kani::stub(chrono::TimeDelta::try_milliseconds, rec_try_milliseconds)]
 fn monotone_quarter_grid_e15() {
     mono_grid(4, 32768, 65535, true);
 }
 #[kani::proof]
-#[kani::stub(chrono::TimeDelta::milliseconds, rec_milliseconds)]
+#[kani::stub(chrono::TimeDelta::try_milliseconds, rec_try_milliseconds)]
 fn monotone_quarter_grid_e20() {
     mono_grid(4, 1048576, 2097151, true);
 }
 #[kani::proof]
-#[kani::stub(chrono::TimeDelta::milliseconds, rec_milliseconds)]
+#[kani::stub(chrono::TimeDelta::try_milliseconds, rec_try_milliseconds)]
 fn monotone_quarter_grid_e23() {
     mono_grid(4, 8388608, 11833863, true);
 }
 #[kani::proof]
-#[kani::stub(chrono::TimeDelta::milliseconds, rec_milliseconds)]
+#[kani::stub(chrono::TimeDelta::try_milliseconds, rec_try_milliseconds)]
 fn duration_days_all() {
     dur_days_sym(0, 21);
 }
 #[kani::proof]
-#[kani::stub(chrono::TimeDelta::milliseconds, rec_milliseconds)]
+#[kani::stub(chrono::TimeDelta::try_milliseconds, rec_try_milliseconds)]
 fn duration_tol_all() {
     dur_tol(-28, 21);
 }
 #[kani::proof]
-#[kani::stub(chrono::TimeDelta::milliseconds, rec_milliseconds)]
+#[kani::stub(chrono::TimeDelta::try_milliseconds, rec_try_milliseconds)]
 fn duration_tol_tiny() {
     dur_tiny();
 }
 #[kani::proof]
-#[kani::stub(chrono::TimeDelta::milliseconds, rec_milliseconds)]
+#[kani::stub(chrono::TimeDelta::try_milliseconds, rec_try_milliseconds)]
 fn duration_days_cast_e0() {
     dur_whole_days(0, 1);
 }
 #[kani::proof]
-#[kani::stub(chrono::TimeDelta::milliseconds, rec_milliseconds)]
+#[kani::stub(chrono::TimeDelta::try_milliseconds, rec_try_milliseconds)]
 fn duration_days_cast_e5() {
     dur_whole_days(32, 63);
 }
 #[kani::proof]
-#[kani::stub(chrono::TimeDelta::milliseconds, rec_milliseconds)]
+#[kani::stub(chrono::TimeDelta::try_milliseconds, rec_try_milliseconds)]
 fn duration_days_cast_e15() {
     dur_whole_days(32768, 65535);
 }
 #[kani::proof]
-#[kani::stub(chrono::TimeDelta::milliseconds, rec_milliseconds)]
+#[kani::stub(chrono::TimeDelta::try_milliseconds, rec_try_milliseconds)]
 fn duration_days_cast_e21() {
     dur_whole_days(2097152, 2958465);
 }
